@@ -87,6 +87,14 @@ PROPS["C07"] = {
                    "ignored_noop assumes an unacceptable Announce is not from the currently selected parent (the parent passed the list when it was selected)"],
 }
 
+def frame_tok(item):
+    """the hex frame of a `P<k>:send evt|gen ...` item (a trailing q=<n> may follow it)"""
+    for t in item.split()[2:]:
+        if "=" not in t:
+            return t
+    return ""
+
+
 def meas_items(obs, which):
     """the `meas` items of an observation (port-tagged), restricted to sync/delay or peer-delay measurements"""
     items = obs.split(" | ")[0].split(" ; ")
@@ -172,6 +180,23 @@ PROPS["C10"] = {
                    "transmit / receive timestamps handed in by the host lie in the PTP range (< 2^48 s)"],
 }
 
+PROPS["C11"] = {
+    "streams": [{"name": "view"}, {"name": "inst"}],
+    "model_is_spec": ["view", "inst"],
+    "spec_theorem": "the model's Announce carries the data sets (C11.announce_carries_datasets) and its data sets follow table 33 / the M1-M2 update (C11.decision_m_datasets, decision_s1_datasets, parent_announce_datasets)",
+    "rule": "view: boundary clocks (one to three ports) brought to Slave, whose parent then keeps announcing fresh contents (all 6 flag "
+            "bits, any utc offset / time source / class / accuracy / variance, stepsRemoved 0..65534), announce timers on every Master port after "
+            "each change, parent changes, receipt timeouts (grandmaster take-over), run-time quality changes followed by BMCA; inst: mixed host "
+            "histories on one to three ports with parents announcing every flag combination, utc offsets, time "
+            "sources, qualities and stepsRemoved 0..65535, parent changes, run-time quality changes, grandmaster take-overs (receipt timeouts, "
+            "BMCA runs), announce timers on every port. Compared after every op: all data sets (current, parent, time properties, path trace, "
+            "default) and every emitted Announce bit-exact. Independent oracle: each emitted Announce equals the data-set getters read before "
+            "the call; an Announce of the parent on the Slave port leaves its contents (+1 step) in the data sets; after a BMCA run that makes "
+            "every port Master the data sets are the instance's own attributes. distinct = distinct ops that emitted an Announce or changed a data set",
+    "explanation": "Lean: announce_carries_datasets, time_properties_roundtrip, decision theorems, parent_change_in_next_announce, frame theorems (nothing else writes the data sets)",
+    "assumptions": INST_ASSUME,
+}
+
 
 def split_obs(obs):
     """(items, status, state) of an instance-stream observation line"""
@@ -213,13 +238,22 @@ def projection(pid, stream, profile):
                 if ":send " in it:
                     f = it.split()
                     # P<k>:send evt|gen ... <hex>: keep port, interface and message type nibble
-                    keep.append(f"{f[0]} {f[1]} type={f[-1][1:2]}")
+                    keep.append(f"{f[0]} {f[1]} type={frame_tok(it)[1:2]}")
                 elif ":demob" in it:
                     keep.append(it)
             m = meas_items(obs, "e2e")
             st = state_part(obs)
             return " ; ".join(keep) + " | " + m + " | " + st
         return f8
+    if pid == "C11":
+        def f11(op, obs):
+            parts = obs.split(" | ")
+            ds = " | ".join(x for x in parts if x[:2] in ("D ", "T ") or x.startswith("PT ") or x.startswith("DF "))
+            ann = [it for it in parts[0].split(" ; ") if ":send gen" in it and len(frame_tok(it)) >= 128 and frame_tok(it)[1] == "b"]
+            if not ds and not ann:
+                return None
+            return " ; ".join(ann) + " | " + ds
+        return f11
     if pid == "C10":
         def f10(op, obs):
             items = obs.split(" | ")[0].split(" ; ")
@@ -267,4 +301,4 @@ def replay_body(pid, stream, ops, idx):
     return ops[idx] + "\n"
 
 
-STATEFUL = {"inst", "bmca", "fml", "c07", "master"}
+STATEFUL = {"inst", "bmca", "fml", "c07", "master", "view"}
